@@ -630,6 +630,44 @@ func (c *Ctx) CYC(rule string) []report.Obligation {
 		}
 		out = append(out, verdict(good, rule, "alias :: expansion guarded by checkForCycle", c.P.Pos(f.Pos()),
 			"the recursion into node.Alias is dominated by checkForCycle(...) == nil", "the alias expansion is not guarded by checkForCycle: a self-referencing anchor recurses forever"))
+		// exact guard: a set of alias targets being expanded, keyed by the node itself; membership is an error
+		// (independent of any path heuristics), and the target is marked before the recursion
+		exact := false
+		if aliasRec != nil {
+			target := aliasRec.Common().Args[1]
+			var test *ssa.Lookup
+			var mark *ssa.MapUpdate
+			for _, b := range f.Blocks {
+				for _, in := range b.Instrs {
+					switch x := in.(type) {
+					case *ssa.Lookup:
+						if sameLoadedField(x.Index, target) && isNodeKeyedMap(x.X.Type()) {
+							test = x
+						}
+					case *ssa.MapUpdate:
+						if sameLoadedField(x.Key, target) && isNodeKeyedMap(x.Map.Type()) {
+							if bv, isC := constBool(x.Value); isC && bv {
+								mark = x
+							}
+						}
+					}
+				}
+			}
+			if test != nil && mark != nil && prog.InstrDominates(mark, aliasRec) && prog.InstrDominates(test, mark) {
+				// the recursion lies on the absent edge of the test and the present edge returns an error
+				absent := factHolds(aliasRec.Block(), func(cond ssa.Value, val bool) bool { return cond == ssa.Value(test) && !val })
+				errOnHit := false
+				for _, r := range returnsOf(f) {
+					if c.dyn.definitelyNonNil(retValue(r, 1), r.Block(), 2) && factHolds(r.Block(), func(cond ssa.Value, val bool) bool { return cond == ssa.Value(test) && val }) {
+						errOnHit = true
+					}
+				}
+				exact = absent && errOnHit
+			}
+		}
+		out = append(out, verdict(exact, rule, "alias :: target on the expansion stack is an error", c.P.Pos(f.Pos()),
+			"resolveReset keeps a set keyed by the alias target, returns an error when the target is already in it, and marks it before recursing",
+			"alias cycles are only recognised by the path heuristics of checkForCycle (which exempt merge keys): `x-a: &a {<<: *a}` recurses until the stack is exhausted"))
 	}
 	// (3) depends_on: searchCycle stops on a vertex already on the path
 	if f := need("graph.searchCycle"); f != nil {
@@ -654,6 +692,33 @@ func (c *Ctx) CYC(rule string) []report.Obligation {
 				errOnHit = true
 			}
 		}
+		// the path-membership test is the first decision of the loop body: nothing may prune a child before
+		// it was compared with the current path (a visited-set test placed first hides back edges)
+		firstTest := false
+		for _, ci := range callSites(f, func(com *ssa.CallCommon) bool { return strings.HasSuffix(staticName(com), "slices.Index") }) {
+			firstTest = true
+			for d := ci.Block().Idom(); d != nil; d = d.Idom() {
+				iff, isIf := d.Instrs[len(d.Instrs)-1].(*ssa.If)
+				if !isIf {
+					continue
+				}
+				if !prog.Info(f).InLoop(d) {
+					break
+				}
+				// loop conditions (index < len) are fine; any other branch inside the loop before the path test is not
+				if bo, ok := iff.Cond.(*ssa.BinOp); ok && bo.Op == token.LSS {
+					continue
+				}
+				if ex, ok := iff.Cond.(*ssa.Extract); ok {
+					if _, isNext := ex.Tuple.(*ssa.Next); isNext {
+						continue
+					}
+				}
+				firstTest = false
+			}
+		}
+		out = append(out, verdict(firstTest, rule, "depends_on :: path membership tested before any pruning", c.P.Pos(f.Pos()),
+			"inside the loop over the children nothing branches before the slices.Index(path, child) test", "a child can be skipped (e.g. by a visited set) before it is compared with the current path: the edge that closes a cycle is then never seen"))
 		out = append(out, verdict(good && errOnHit, rule, "depends_on :: searchCycle guarded by path membership", c.P.Pos(f.Pos()),
 			"the recursive call is unreachable when the child is already on the path, and that case returns an error", "searchCycle recurses into a vertex that is already on the path, or does not report it"))
 	}
@@ -695,6 +760,72 @@ func (c *Ctx) CYC(rule string) []report.Obligation {
 				}
 			}
 		}
+		// the comparison must apply to every file the resource loader returned: the deciding conditions of the
+		// error return may only be loops, the loader's Accept, error tests and the equality itself
+		var extra []string
+		for _, r := range returnsOf(f) {
+			if !c.dyn.definitelyNonNil(retValue(r, 0), r.Block(), 2) {
+				continue
+			}
+			isCycleRet := false
+			var conds []ssa.Value
+			seenB := map[*ssa.BasicBlock]bool{}
+			work := []*ssa.BasicBlock{r.Block()}
+			first := true
+			for len(work) > 0 {
+				blk := work[0]
+				work = work[1:]
+				for _, d := range prog.Info(f).ControlDeps(blk) {
+					if seenB[d.Branch] || (!first && !d.Branch.Dominates(r.Block())) {
+						continue
+					}
+					seenB[d.Branch] = true
+					if iff, ok := d.Branch.Instrs[len(d.Branch.Instrs)-1].(*ssa.If); ok {
+						conds = append(conds, iff.Cond)
+						if bo, ok := iff.Cond.(*ssa.BinOp); ok && bo.Op == token.EQL && (c.elementOf(bo.X, incl) || c.elementOf(bo.Y, incl)) {
+							isCycleRet = true
+						}
+					}
+					if d.Branch.Dominates(r.Block()) {
+						work = append(work, d.Branch)
+					}
+				}
+				first = false
+			}
+			if !isCycleRet {
+				continue
+			}
+			for _, cd := range conds {
+				switch x := cd.(type) {
+				case *ssa.Call:
+					if x.Call.IsInvoke() && x.Call.Method.Name() == "Accept" {
+						continue
+					}
+				case *ssa.Extract: // range `ok`
+					if _, isNext := x.Tuple.(*ssa.Next); isNext {
+						continue
+					}
+				case *ssa.BinOp:
+					if (x.Op == token.EQL || x.Op == token.NEQ) && (prog.IsNilConst(x.X) || prog.IsNilConst(x.Y)) {
+						continue // err != nil
+					}
+					if x.Op == token.EQL && (c.elementOf(x.X, incl) || c.elementOf(x.Y, incl)) {
+						continue
+					}
+					if x.Op == token.LSS {
+						if call, ok := x.Y.(*ssa.Call); ok {
+							if bi, ok := call.Call.Value.(*ssa.Builtin); ok && bi.Name() == "len" {
+								continue // slice range loop condition
+							}
+						}
+					}
+				}
+				extra = append(extra, c.P.Term(cd, 3))
+			}
+		}
+		out = append(out, verdict(found && len(extra) == 0, rule, "include :: cycle check applies to every loaded file", c.P.Pos(f.Pos()),
+			"the error return depends only on the loops over the include's files and loaders, Accept, error tests and the comparison itself",
+			"the include-cycle comparison is only made when "+strings.Join(extra, " and ")+" holds: an include whose cycle closes through another entry / project_directory form recurses until the stack is exhausted"))
 		out = append(out, verdict(found, rule, "include :: cycle error on a path already being included", c.P.Pos(f.Pos()),
 			"ApplyInclude has an error return on the true edge of `element of included == path returned by the resource loader`", "ApplyInclude no longer compares the loaded path with the chain of files being included"))
 		// threaded to the nested load
@@ -776,6 +907,30 @@ func (c *Ctx) isLoadedPath(v ssa.Value) bool {
 		}
 	}
 	return false
+}
+
+// sameLoadedField: both values are loads of the same field of the same object (node.Alias ... node.Alias).
+func sameLoadedField(a, b ssa.Value) bool {
+	if a == b {
+		return true
+	}
+	ua, ok1 := a.(*ssa.UnOp)
+	ub, ok2 := b.(*ssa.UnOp)
+	if !ok1 || !ok2 {
+		return false
+	}
+	fa, ok1 := ua.X.(*ssa.FieldAddr)
+	fb, ok2 := ub.X.(*ssa.FieldAddr)
+	return ok1 && ok2 && fa.X == fb.X && fa.Field == fb.Field
+}
+
+func isNodeKeyedMap(t types.Type) bool {
+	m, ok := t.Underlying().(*types.Map)
+	if !ok {
+		return false
+	}
+	p, ok := m.Key().(*types.Pointer)
+	return ok && recvTypeName(p) == "Node"
 }
 
 // loadOrigin: the value last stored into the cell a load reads (same block), or v itself.
@@ -1127,3 +1282,106 @@ func sccs(adj [][]int) []int {
 }
 
 var _ = report.Info
+
+// errUntestedExit: a path from the call to a return of the function that neither
+// tests the call's error against nil, nor hands it to another call, nor returns
+// it. Returns the position of the offending return ("" when none).
+func (c *Ctx) errUntestedExit(call ssa.CallInstruction) string {
+	v, isVal := call.(ssa.Value)
+	if !isVal {
+		return ""
+	}
+	sig := call.Common().Signature()
+	n := sig.Results().Len()
+	if n == 0 || !isErrorType(sig.Results().At(n-1).Type()) {
+		return ""
+	}
+	var errv ssa.Value
+	if n == 1 {
+		errv = v
+	} else {
+		for _, r := range *v.Referrers() {
+			if ex, ok := r.(*ssa.Extract); ok && ex.Index == n-1 {
+				errv = ex
+			}
+		}
+	}
+	if errv == nil {
+		return c.P.InstrPos(call) // discarded outright
+	}
+	// values that stand for the error: itself and phis of it
+	alias := map[ssa.Value]bool{errv: true}
+	for changed := true; changed; {
+		changed = false
+		for a := range alias {
+			for _, r := range *a.Referrers() {
+				if phi, ok := r.(*ssa.Phi); ok && !alias[phi] {
+					alias[phi] = true
+					changed = true
+				}
+			}
+		}
+	}
+	// blocks in which the error is consumed: tested, passed to a call, stored, or returned
+	type edge struct{ from, to *ssa.BasicBlock }
+	cleared := map[*ssa.BasicBlock]bool{}
+	for a := range alias {
+		for _, r := range *a.Referrers() {
+			switch x := r.(type) {
+			case *ssa.BinOp:
+				if (x.Op == token.EQL || x.Op == token.NEQ) && (prog.IsNilConst(x.X) || prog.IsNilConst(x.Y)) {
+					for _, rr := range *x.Referrers() {
+						if iff, ok := rr.(*ssa.If); ok {
+							cleared[iff.Block()] = true
+						}
+					}
+				}
+			case *ssa.Return:
+				cleared[x.Block()] = true
+			case ssa.CallInstruction:
+				cleared[r.Block()] = true
+			case *ssa.Store, *ssa.MakeInterface, *ssa.MapUpdate, *ssa.Send:
+				cleared[r.Block()] = true
+			}
+		}
+	}
+	start := call.Block()
+	if cleared[start] {
+		// consumed later in the same block?
+		for a := range alias {
+			for _, r := range *a.Referrers() {
+				if r.Block() == start && prog.InstrIndex(r) > prog.InstrIndex(call) {
+					if _, isPhi := r.(*ssa.Phi); !isPhi {
+						return ""
+					}
+				}
+			}
+		}
+	}
+	seen := map[*ssa.BasicBlock]bool{}
+	stack := append([]*ssa.BasicBlock{}, start.Succs...)
+	if len(start.Succs) == 0 {
+		if ret, ok := start.Instrs[len(start.Instrs)-1].(*ssa.Return); ok {
+			return c.P.InstrPos(ret)
+		}
+	}
+	for len(stack) > 0 {
+		b := stack[len(stack)-1]
+		stack = stack[:len(stack)-1]
+		if seen[b] || b == call.Parent().Recover {
+			continue
+		}
+		seen[b] = true
+		if cleared[b] {
+			continue
+		}
+		if b == start {
+			continue // back at the call: the error is produced again
+		}
+		if ret, ok := b.Instrs[len(b.Instrs)-1].(*ssa.Return); ok {
+			return c.P.InstrPos(ret)
+		}
+		stack = append(stack, b.Succs...)
+	}
+	return ""
+}
